@@ -679,6 +679,14 @@ func parseModifies(text string, line int) ([]ModItem, error) {
 			items = append(items, ModItem{Kind: "elems", X: e, Text: part})
 			continue
 		}
+		if strings.HasPrefix(part, "deref(") && strings.HasSuffix(part, ")") {
+			e, err := parseExprString(part[6 : len(part)-1])
+			if err != nil {
+				return nil, err
+			}
+			items = append(items, ModItem{Kind: "deref", X: e, Text: part})
+			continue
+		}
 		if strings.HasPrefix(part, "map(") && strings.HasSuffix(part, ")") {
 			e, err := parseExprString(part[4 : len(part)-1])
 			if err != nil {
